@@ -16,7 +16,7 @@ func init() {
 		ID:   "C08",
 		Rule: "one case = (payloader configuration, MTU, history of 1-3 inputs on one instance); every call is made on an instance whose input buffers are overwritten afterwards and on a twin that gets pristine copies; non-trivial = at least one fragment was returned",
 		Assumptions: []string{
-			"13 payloader configurations: G711, G722, Opus, H264 +/-DisableStapA, H265 x AddDONL x SkipAggregation, VP8 +/-picture id, VP9 flexible / non-flexible (fixed InitialPictureIDFn), AV1",
+			"14 payloader configurations: G711, G722, Opus, H264 +/-DisableStapA, H265 x AddDONL x SkipAggregation, VP8 without / with picture ids (fresh, and driven to the 15-bit id form), VP9 flexible / non-flexible (fixed InitialPictureIDFn), AV1",
 			"alphabet strings: every string up to 5 (quick) / 6 (thorough) bytes over an 8-symbol alphabet per codec (start-code bytes, NAL / OBU / VP9 frame header octets) for every MTU 0..12; structured corpus per codec (30-60 inputs from the reference writers: NAL sequences with 3/4-byte start codes, leading garbage, no start code, OBU streams with forbidden bit / truncated LEB128 / oversize field, valid, truncated and invalid VP9 headers, lengths around the MTU) for EVERY MTU 0..40 and {63,64,65,127,128,129,255,256,1200,65535}",
 			"histories: all sequences of up to 3 inputs from a 14-20 input sub-corpus per codec over 12 MTUs; pairs over the full corpus",
 			"returning no fragment (MTU too small, unparsable input) is allowed; Opus ignores the MTU by design",
@@ -49,6 +49,13 @@ var c08Configs = []c08Config{
 	{"H265/DONL+SkipAggregation", func() rtp.Payloader { return &codecs.H265Payloader{AddDONL: true, SkipAggregation: true} }, []byte{0x00, 0x01, 0x40, 0x42, 0x26, 0x02, 0x62, 0xFF}, "h265", false},
 	{"VP8", func() rtp.Payloader { return &codecs.VP8Payloader{} }, []byte{0x00, 0x10, 0xFF}, "vp8", false},
 	{"VP8/PictureID", func() rtp.Payloader { return &codecs.VP8Payloader{EnablePictureID: true} }, []byte{0x00, 0x10, 0xFF}, "vp8", false},
+	{"VP8/PictureID>=128", func() rtp.Payloader {
+		p := &codecs.VP8Payloader{EnablePictureID: true}
+		for i := 0; i < 130; i++ { // drive the running picture id into its 15-bit form
+			p.Payload(1200, []byte{0x00})
+		}
+		return p
+	}, []byte{0x00, 0x10, 0xFF}, "vp8", false},
 	{"VP9/flexible", func() rtp.Payloader {
 		return &codecs.VP9Payloader{FlexibleMode: true, InitialPictureIDFn: func() uint16 { return 0x7FFE }}
 	}, []byte{0x82, 0x86, 0x88, 0xB1, 0x49, 0x83, 0x42, 0x00}, "vp9", false},
